@@ -15,11 +15,21 @@ for cfg in X.CONFIGS:
         except Exception as e:
             print('config', cfg, 'not extracted:', str(e)[:100])
 fns = set()
+names = {}
+adts = {}
+sigs = {}
 for f in sorted(glob.glob(os.path.join(os.path.dirname(d), '*', '*.json'))):
     data = json.load(open(f))
+    for a in data.get('adts', []):
+        adts.setdefault(a['path'], [[v['name'], v['fields']] for v in a['variants']])
     for b in data['bodies']:
         if b['kind'] in ('fn', 'method'):
             fns.add(b['path'])
+            sigs.setdefault(b['unit'] + '|' + b['path'], [b['argc'], [l['ty'] for l in b['locals'][:b['argc'] + 1]], b['kind'], b['file'], b.get('self_ty')])
+        if b['kind'] in ('fn', 'method', 'closure') and b['path'] not in names:
+            named = [[i, l['name'], l['ty']] for i, l in enumerate(b['locals']) if l.get('name')]
+            if named or b.get('upvars'):
+                names[b['unit'] + '|' + b['path']] = {'n': len(b['locals']), 'named': named, 'upvars': b.get('upvars', [])}
 head = subprocess.run(['git', '-C', '/repo', 'rev-parse', '--short', 'HEAD'], capture_output=True, text=True).stdout.strip()
-json.dump({'repo_head': head, 'facts_key': key, 'functions': sorted(fns)}, open(os.path.join(VERIF, 'fcverif', 'known_fns.json'), 'w'), indent=0)
+json.dump({'repo_head': head, 'facts_key': key, 'functions': sorted(fns), 'names': names, 'adts': adts, 'sigs': sigs}, open(os.path.join(VERIF, 'fcverif', 'known_fns.json'), 'w'), indent=0)
 print(len(fns), 'functions at', head)
